@@ -125,7 +125,9 @@ struct Gen {
         if (r.chance(0.1)) st = vec2(0.0);
         return add(Manifold::Extrude(p, h, div, twist, st),
                    "Extrude(star" + std::to_string(n) + (hole ? "+hole" : "") + ",r=" + fmt(rad) + ",h=" + fmt(h) + ",div=" + std::to_string(div) + ",twist=" + fmt(twist) + ",scaleTop=(" + fmt(st.x) + "," + fmt(st.y) + "))",
-                   twist == 0.0 || true, (size_t)(n + 6) * 2 * (div + 2));
+                   // a twisted extrusion with few divisions can have crossing side
+                   // triangles: eps-validity is only claimed for untwisted ones
+                   twist == 0.0, (size_t)(n + 6) * 2 * (div + 2));
       }
       case 8: {
         int n = r.range(3, 9);
